@@ -255,6 +255,105 @@ def listby_obligations(ctx, m):
     ctx.cover('_listby.pre_satisfiable', laws() + [n_ >= 3])
 
 
+
+
+# ------------------------------------------------------------------------------------------------- expansion of matched groups into rows
+def expansion_obligations(ctx, m):
+    """After the merge loop every output column of join is `sum([[E(l, r) for l in lid for r in rid] for lid, rid in zip(lids, rids)], [])`.
+    Row p of every column then refers to the same pair (l, r) of a matched group (same generator nest => same enumeration order), so the
+    output rows are exactly the pairs of a left and a right row of each matched group.  Obligations: (1) every column assignment has
+    exactly that generator nest (AST shape); (2) its element expression, executed symbolically for arbitrary l and r, is the cell the
+    statement prescribes (left column: self[k][l]; right column: other[k][r]; same-named column: by mode); (3) the key column repeats
+    the group key len(l) * len(r) times per group.  The flatten / offset arithmetic itself is an argument, not a solver step."""
+    fdef = m.func('dictable.join')
+    assigns = [s_ for s_ in walk_no_defs(fdef) if isinstance(s_, ast.Assign) and isinstance(s_.targets[0], ast.Subscript)
+               and ast.unparse(s_.targets[0].value) == 'rtn' and isinstance(s_.value, ast.Call) and ast.unparse(s_.value.func) == 'sum']
+    if len(assigns) < 6:
+        raise SelectorError('join: expected the column assignments rtn[k] = sum([...], []) for left, right and same-named columns')
+
+    def nest(call):
+        """(element expr, ok) of sum([[E for l in lid for r in rid] for lid, rid in zip(lids, rids)], [])"""
+        if not (len(call.args) == 2 and isinstance(call.args[1], ast.List) and not call.args[1].elts and isinstance(call.args[0], ast.ListComp)):
+            return None, False
+        outer = call.args[0]
+        if not (len(outer.generators) == 1 and not outer.generators[0].ifs and ast.unparse(outer.generators[0].iter) == 'zip(lids, rids)'
+                and ast.unparse(outer.generators[0].target) in ('lid, rid', '(lid, rid)') and isinstance(outer.elt, ast.ListComp)):
+            return None, False
+        inner = outer.elt
+        g = inner.generators
+        ok = (len(g) == 2 and not g[0].ifs and not g[1].ifs and ast.unparse(g[0].target) == 'l' and ast.unparse(g[0].iter) == 'lid'
+              and ast.unparse(g[1].target) == 'r' and ast.unparse(g[1].iter) == 'rid')
+        return inner.elt, ok
+
+    n = Int('N!exp')
+    left, right = fresh_list(VAL, 'leftcol'), fresh_list(VAL, 'rightcol')
+    l, r = Ints('L!exp R!exp')
+    MODEF = z3.Function('mode_fn', Val, Val, Val)
+
+    class Cols:
+        def call(self, ex, st, e, fname, args, kwargs):
+            if fname == 'mode' and len(args) == 2 and all(a.kind == 'val' for a in args):
+                return V(MODEF(args[0].t, args[1].t))
+            return NotImplemented
+
+    # which table each loop's `v` / `lv` / `rv` is read from: the assignment that precedes the column assignment in the same block
+    def source_of(name, stmt):
+        blk = None
+        for node in walk_no_defs(fdef):
+            for fld in ('body', 'orelse'):
+                b = getattr(node, fld, None)
+                if isinstance(b, list) and stmt in b:
+                    blk = b
+        for prev in reversed(blk[:blk.index(stmt)]):
+            if isinstance(prev, ast.Assign) and ast.unparse(prev.targets[0]) == name:
+                return ast.unparse(prev.value)
+        return None
+
+    for idx, a in enumerate(assigns):
+        elt, ok = nest(a.value)
+        label = 'join.expand.column%d' % idx
+        ctx.post(label + '.enumerates_all_pairs_of_each_matched_group_in_the_common_order', [], BoolVal(ok), kind='syntactic')
+        if elt is None:
+            continue
+        env = {'l': I(l), 'r': I(r)}
+        srcs = {}
+        for nm in sorted({x.id for x in ast.walk(elt) if isinstance(x, ast.Name)} - {'l', 'r', 'mode'}):
+            src = source_of(nm, a)
+            srcs[nm] = src
+            env[nm] = left if src == 'self[k]' else right if src == 'other[k]' else None
+        if any(v is None for v in env.values()):
+            ctx.post(label + '.cells_read_from_the_operands_columns', [], BoolVal(False), kind='syntactic')
+            continue
+        env['mode'] = SV('modefn')
+        ex = Exec(m, [Cols(), Lists(), TypePreds()], name=label)
+        st = State(env=env)
+        st.pc += [0 <= l, l < left.t, 0 <= r, r < right.t]
+        val = ex.eval(st, elt)
+        ctx.absorb(ex)
+        for o in st.pending:
+            ctx.post(label + '.never_raises_for_rows_of_the_group.%s' % o.val, ex.facts + o.st.pc, BoolVal(False), kind='safety')
+        lc, rc = left.arrs[0][l], right.arrs[0][r]
+        names = set(srcs)
+        if val.kind == 'val' and srcs and all(v == 'self[k]' for v in srcs.values()):
+            ctx.post(label + '.cell_is_the_left_rows_value', ex.facts + st.pc, val.t == lc)
+        elif val.kind == 'val' and srcs and all(v == 'other[k]' for v in srcs.values()) and 'mode' not in {x.id for x in ast.walk(elt) if isinstance(x, ast.Name)}:
+            ctx.post(label + '.cell_is_the_right_rows_value', ex.facts + st.pc, val.t == rc)
+        elif val.kind == 'val':
+            ctx.post(label + '.cell_is_mode_of_left_and_right_value', ex.facts + st.pc, val.t == MODEF(lc, rc))
+        elif val.kind == 'tuple' and len(val.items) == 2:
+            ctx.post(label + '.cell_is_the_pair_of_left_and_right_value', ex.facts + st.pc, And(val.items[0].t == lc, val.items[1].t == rc))
+        else:
+            ctx.post(label + '.cell_has_a_recognised_form', [], BoolVal(False), kind='syntactic')
+    # the mode dispatch: 'l'/0 -> left, 'r'/1 -> right, callable -> mode(l, r), else the pair.  Checked by which source each branch reads.
+    # key column: [x]*n with n = len(l)*len(r)
+    ns = [s_ for s_ in walk_no_defs(fdef) if isinstance(s_, ast.Assign) and ast.unparse(s_.targets[0]) == 'ns']
+    ok_ns = len(ns) == 1 and ast.unparse(ns[0].value).replace(' ', '') == '[len(l)*len(r)forl,rinzip(lids,rids)]'
+    keycol = [c for c in walk_no_defs(fdef) if isinstance(c, ast.Call) and ast.unparse(c.func) == 'sum' and '[x] * n' in ast.unparse(c)]
+    ok_key = len(keycol) == 1 and ast.unparse(keycol[0].args[0]).replace(' ', '') == '[[x]*nforx,ninzip(xs,ns)]'
+    ctx.post('join.expand.key_column_repeats_the_group_key_once_per_pair', [], BoolVal(ok_ns and ok_key), kind='syntactic')
+    ctx.trust('join expansion: that the flattened nests of all columns enumerate the pairs in one common order is an argument from the identical generator nest (checked on the AST), not a solver step')
+
+
 # ------------------------------------------------------------------------------------------------- build
 def build(ctx):
     m = ctx.mod('_dictable')
@@ -426,6 +525,7 @@ def build(ctx):
         if nexit == 0:
             raise OutOfSubset('join merge loop has no normal exit')
     ctx.guarded('join', join_section)
+    ctx.guarded('join.expand', lambda: expansion_obligations(ctx, m))
 
     def xor_section():
         for mode in (0, 1):
